@@ -101,13 +101,15 @@ async def drain_tasks(loop: VLoop) -> None:
             heapq.heappush(stash, h)
 
 
-async def vsleep(loop: VLoop, d_ns: int) -> None:
+async def vsleep(loop: VLoop, d_ns: int, late_ns: int = 0) -> None:
+    """sleep of the driver: the clock jumps from timer to timer; with `late_ns` every wake-up happens that much after
+    the instant its timer was armed for (a real loop is never exactly on time), but not after the end of the sleep"""
     target = loop.vns + d_ns
     for _ in range(1_000_000):
         nt = loop.next_timer_rel()
         if nt is None or nt > target:
             break
-        loop.set_rel(max(nt, loop.vns))
+        loop.set_rel(min(max(nt, loop.vns) + late_ns, target))
         await drain(loop)
     else:
         raise RuntimeError('timer storm')
